@@ -75,6 +75,11 @@ func getOffset(k []byte) int64 {
 // allow reads to be performed correctly.
 func (t *TFile) trackWrite(offset int64, length int64) {
 
+	if length <= 0 {
+		// an empty write modifies nothing
+		return
+	}
+
 	start, end := getFileRange(offset, length)
 
 	// Lock to protect radix tree, reads can continue.
@@ -82,63 +87,38 @@ func (t *TFile) trackWrite(offset int64, length int64) {
 	defer t.lock.Unlock()
 
 	txn := t.tracker.Txn()
-	insertStart := true
-	insertEnd := true
 
-	if t.tracker.Len() == 0 {
-
-		txn.Insert(getKey(start), startFlag)
-		txn.Insert(getKey(end), endFlag)
-		t.tracker = txn.Commit()
-
-		return
-	}
+	// Markers alternate (start, end, start, end...) in key order. Every marker located within
+	// [start, end] is superseded by the new range. Whether the boundaries of the new range must be
+	// inserted depends on the new range beginning (resp. ending) inside, or right at the edge of,
+	// an already tracked range.
+	insideBefore := false // some tracked range begins before start, and ends at or after start
+	insideAfter := false  // some tracked range begins at or before end, and ends after end
 
 	fn := func(k []byte, v interface{}) bool {
 		isStart := v.(bool)
-		isEnd := !isStart
 		key := getOffset(k)
 
-		deleteKey := func() {
-			if key <= end {
-				txn.Delete(k)
-			}
-		}
 		switch {
-		case isStart && (key == start):
-			insertStart = false
+		case key < start:
+			insideBefore = isStart
+			insideAfter = isStart
 			return !terminate
-		case isStart && (key < start):
-			// Only interim keys need deleting
-			return !terminate
-		case isStart && (key > start):
-			deleteKey()
-			return !terminate
-		case isEnd && (key < start):
-			// Previous end hit and can be ignored, process next key
-			return !terminate
-		case isEnd && (key > start):
-			// There is an end that is after start and no other key in the range.
-			// Skip inserting start, previous start will cover the range.
-			insertStart = false
-			// This key might need deleting and process other keys
-			if key >= end {
-				insertEnd = false
-				return terminate
-			}
-			deleteKey()
-			return !terminate
+		case key > end:
+			return terminate
 		default:
+			txn.Delete(k)
+			insideAfter = isStart
 			return !terminate
 		}
 	}
 
 	// TODO: To reduce the walk use prefix but needs to be walked twice offset and offset + length
 	t.tracker.Root().Walk(fn)
-	if insertStart {
+	if !insideBefore {
 		txn.Insert(getKey(start), startFlag)
 	}
-	if insertEnd {
+	if !insideAfter {
 		txn.Insert(getKey(end), endFlag)
 	}
 	t.tracker = txn.Commit()
